@@ -5,4 +5,5 @@ THEOREMS = [
     "Pt.lower_roll_accesses", "Pt.lower_perm_accesses", "Pt.lower_basic_accesses", "Pt.lower_reshape_accesses",
     "Pt.lower_stack_accesses", "Pt.lower_concat_accesses",
     "Pt.pad_accesses_inbounds", "Pt.einsum_accesses_inbounds",
+    "Pt.advindex_accesses_affine_inbounds",
 ]
